@@ -13,7 +13,7 @@ import ast
 
 import sympy as sp
 
-from ..loader import U, norm_stmt, AnalysisError
+from ..loader import U, norm_stmt, AnalysisError, expand_pred
 from .. import spec as SP
 from ..term import (Lifter, Slots, Tup, Opaque, Unsupported, summand, is_zero,
                     gaussian_family, S, has_S)
@@ -250,11 +250,18 @@ def _sign_eval(e, env):
                 return 0
             if isinstance(x, ast.Name) and x.id in env:
                 return SIGN_NUM[env[x.id]]
+            if isinstance(x, ast.Call) and U(x.func) in (
+                    'np.min', 'np.max', 'np.amin', 'np.amax', 'min',
+                    'max') and len(x.args) == 1:
+                # arrays carry one sign for all elements
+                return val(x.args[0])
             return None
         a, b = val(l), val(r)
         if a is None or b is None:
             return None
         if not (isinstance(l, ast.Constant) or isinstance(r, ast.Constant)):
+            return None
+        if isinstance(e.ops[0], (ast.Is, ast.IsNot, ast.In, ast.NotIn)):
             return None
         return {ast.Lt: a < b, ast.LtE: a <= b, ast.Gt: a > b,
                 ast.GtE: a >= b, ast.Eq: a == b,
@@ -273,6 +280,7 @@ def r04_1(ctx, repo):
             construct = '%s.%s' % (cls, m)
             where = repo.loc(fn, cls, m)
             g = _guard_of(fn)
+            gtest = expand_pred(repo, cls, g.test) if g is not None else None
             scales = _scale_names(fn)
             if not scales:
                 ctx.error(rule, '%s: scale parameters not recognised '
@@ -286,7 +294,7 @@ def r04_1(ctx, repo):
             names = scales + ['model_output']
             base = {n: 'pos' for n in names}
             # valid input must not be rejected
-            v = _sign_eval(g.test, base)
+            v = _sign_eval(gtest, base)
             if v is True:
                 ctx.violation(rule, repo.loc(g, cls, m), construct,
                               'guard rejects support',
@@ -299,10 +307,33 @@ def r04_1(ctx, repo):
             cases = [(s, sg) for s in scales for sg in ('zero', 'neg')]
             if lognormal:
                 cases += [('model_output', 'zero'), ('model_output', 'neg')]
+            else:
+                # the documented support of the model output is the whole
+                # real line: a non-positive prediction must not be rejected
+                for sg in ('zero', 'neg'):
+                    env = dict(base)
+                    env['model_output'] = sg
+                    v = _sign_eval(gtest, env)
+                    what = 'model_output %s 0' % (
+                        '=' if sg == 'zero' else '<')
+                    if v is False:
+                        ctx.ok(rule, repo.loc(g, cls, m), construct,
+                               'guard `%s` accepts %s' % (U(g.test), what))
+                    elif v is True:
+                        ctx.violation(
+                            rule, repo.loc(g, cls, m), construct,
+                            'guard rejects %s' % what,
+                            'support guard `%s` rejects %s although the '
+                            'documented density is defined for every real '
+                            'model output: a finite log-likelihood is '
+                            'reported as -inf' % (U(g.test), what))
+                    else:
+                        ctx.error(rule, '%s: guard undecided for %s' % (
+                            construct, what))
             for s, sg in cases:
                 env = dict(base)
                 env[s] = sg
-                v = _sign_eval(g.test, env)
+                v = _sign_eval(gtest, env)
                 what = '%s %s 0' % (s, '=' if sg == 'zero' else '<')
                 if v is True:
                     ctx.ok(rule, repo.loc(g, cls, m), construct,
